@@ -534,7 +534,7 @@ def _static_newton_cg(
             )
         status = jnp.where(jnp.isnan(energy), -1, status)
         conditional_raise(jnp.isnan(energy), ValueError("energy is NaN"))
-        min_cond = (ret_ls["iteration"] < 2) & (i > miniter)
+        min_cond = (ret_ls["iteration"] <= 2) & (i > miniter)
         status = jnp.where(
             (0.0 <= energy_diff)
             & (False if absdelta is None else (energy_diff < absdelta))
